@@ -325,36 +325,77 @@ def capture_sources(F, cb):
 
 
 def path_count_range(b, weight, start=0, targets=None):
-    """(min, max) of the summed block weights over all paths from `start` to a normal return (or to any block in `targets`),
-    with back edges cut (each loop body is traversed at most once). weight: dict bb -> int."""
+    """(min, max) of the summed block weights over all paths from `start` to a normal return (or to any block in `targets`).
+
+    If the region between start and the targets is acyclic the count is exact over all paths (edges that are back edges of an
+    enclosing loop are followed, since they cannot close a cycle inside the region). Otherwise back edges are cut, i.e. each inner
+    loop body is traversed at most once. weight: dict bb -> int. Returns None when no path reaches a target / return."""
     succ = b.succ_map()
-    back = set(b.back_edges())
-    memo = {}
     exits = set(b.exits()) if targets is None else set(targets)
+    # region reachable from start without passing through a target
+    region = set()
+    st = [start]
+    while st:
+        x = st.pop()
+        if x in region:
+            continue
+        region.add(x)
+        if x in exits:
+            continue
+        for y in succ[x]:
+            st.append(y)
+    # cycle detection inside the region (targets are sinks)
+    color = {}
+    cyclic = False
+    stack = [(start, iter(succ[start] if start not in exits else []))]
+    color[start] = 1
+    while stack and not cyclic:
+        x, it = stack[-1]
+        adv = False
+        for y in it:
+            if y not in region:
+                continue
+            if y in exits and y != start:
+                color.setdefault(y, 2)
+                continue
+            c = color.get(y, 0)
+            if c == 1:
+                cyclic = True
+                break
+            if c == 0:
+                color[y] = 1
+                stack.append((y, iter(succ[y])))
+                adv = True
+                break
+        if not adv and not cyclic:
+            color[x] = 2
+            stack.pop()
+    back = set(b.back_edges()) if cyclic else set()
+    memo = {}
     import sys
     sys.setrecursionlimit(10000)
 
-    def go(x, stack):
+    def go(x, onpath):
         if x in memo:
             return memo[x]
         w = weight.get(x, 0)
-        if x in exits:
+        if x in exits and (x != start or targets is None):
             memo[x] = (w, w)
             return memo[x]
         lo, hi = None, None
         for y in succ[x]:
             if y in exits and targets is not None:
-                r = (weight.get(y, 0), weight.get(y, 0))   # reaching a target ends the path, also through a back edge
-            elif (x, y) in back or y in stack:
+                r = (weight.get(y, 0), weight.get(y, 0))
+            elif (x, y) in back or y in onpath:
                 continue
             else:
-                r = go(y, stack | {x})
+                r = go(y, onpath | {x})
             if r is None:
                 continue
             lo = r[0] if lo is None else min(lo, r[0])
             hi = r[1] if hi is None else max(hi, r[1])
         if lo is None:
-            memo[x] = None  # cannot reach an exit (panic path)
+            memo[x] = None
             return None
         memo[x] = (lo + w, hi + w)
         return memo[x]
